@@ -297,7 +297,7 @@ def run(ck):
             effects = [e for e in effects if e['k'] <= last]
         for e in effects:
             scenarios.append((cmd, b, 'fault', e['k'], None, mig, e))
-            for tn in (torns if e['kind'] in ('write', 'copy') else [None]):
+            for tn in (torns if e['kind'] in ('close', 'flush', 'copy') and (e.get('n') or e['kind'] == 'copy') else [None]):
                 scenarios.append((cmd, b, 'crash', e['k'], tn, mig, e))
     results = par.pmap(_scenario, scenarios, extra=(tabs,))
     recs = []
